@@ -54,6 +54,9 @@ def check_plan(plan, mopts=None):
             v['log'] = (logs.get(v.get('epoch', 0)) or '')[-3000:]
     res['viol'] = viol
     res['stats'] = m.stats
+    njc = sum(1 for r in hist if r.get('k') == 'jobctl')
+    if njc:
+        res['stats']['executors_stopped_or_continued'] = njc
     res['probes'] = m.probes
     res['relax'] = m.relax
     res['hash'] = sim.canon_hash(hist)
